@@ -46,4 +46,13 @@ def run(ctx):
     ctx.uses('eventlist')
     for cname_ in ctx.prog.subclasses('EventListInterface'):
         c01.check_eventlist(ctx, cname_)
+    # the warm-up reset is an event like any other: whether it runs before or after a model event of the same instant is decided by the
+    # comparisons of the clock values -- quantities on a Duration clock (shared rule with C01-C04 / C16)
+    from . import c16
+    ctx.uses('units')
+    c16.r166(ctx, None)
     T.reset_completeness(ctx, 'R11.7', ['SimCounter', 'SimTally', 'SimWeightedTally', 'SimPersistent'])
+    from ..statrules import shared_class_state
+    shared_class_state(ctx, 'R11.10', sorted(c_ for c_, ci_ in ctx.prog.classes.items() if ci_.module.name == 'statistics'),
+                       'what one statistic is told (an event type to accept, an observation) reaches every other statistic of the class: each reports more than '
+                       'its own observations')
